@@ -4,8 +4,8 @@
 use crate::gen::{build_ext, Spec};
 use crate::oracles::{guard, opts, read_with, viol, write_game, Outcome, Progress};
 
-pub const RELABELS: [(u8, u8, u8); 12] =
-	[(3, 16, 0), (3, 15, 255), (3, 0, 0), (0, 1, 0), (3, 16, 1), (3, 16, 255), (3, 17, 0), (3, 255, 0), (4, 0, 0), (4, 0, 1), (200, 1, 1), (255, 255, 255)];
+pub const RELABELS: [(u8, u8, u8); 11] =
+	[(3, 16, 0), (3, 15, 255), (3, 14, 0), (3, 16, 1), (3, 16, 255), (3, 17, 0), (3, 255, 0), (4, 0, 0), (4, 0, 1), (200, 1, 1), (255, 255, 255)];
 
 fn allowed(v: (u8, u8, u8)) -> bool {
 	v <= (3, 16, 0)
